@@ -175,7 +175,7 @@ def binop(I, st, op, l, r, node):
         f = (lambda a, b: _band(a, b)) if isinstance(op, ast.BitAnd) else (lambda a, b: _bor(a, b))
         return lift2(I, st, f, l, r, kind="bool")
     if isinstance(op, ast.MatMult):
-        return EXT["np.matmul"](I, st, [l, r], {}, node)
+        return EXT["numpy.matmul"](I, st, [l, r], {}, node)
     f = BIN.get(type(op))
     if f is None:
         raise Unsupported(f"binary operator {type(op).__name__}")
@@ -832,7 +832,7 @@ def b_print(I, st, args, kw, node):
 def b_sum(I, st, args, kw, node):
     v = args[0]
     if is_arr(v):
-        return EXT["np.sum"](I, st, [v], {}, node)
+        return EXT["numpy.sum"](I, st, [v], {}, node)
     if isinstance(v, Ref) and v.kind == "list":
         acc = 0
         for x in st.cell(v)["__list__"]:
@@ -1078,12 +1078,12 @@ def arr_astype(I, st, args, kw, node):
 
 @ext(("method", "arr", "sum"))
 def arr_sum(I, st, args, kw, node):
-    return EXT["np.sum"](I, st, args, kw, node)
+    return EXT["numpy.sum"](I, st, args, kw, node)
 
 
 @ext(("method", "arr", "mean"))
 def arr_mean(I, st, args, kw, node):
-    return EXT["np.mean"](I, st, args, kw, node)
+    return EXT["numpy.mean"](I, st, args, kw, node)
 
 
 @ext(("method", "arr", "reshape"))
@@ -1380,8 +1380,7 @@ def np_lse(I, st, args, kw, node):
     if a.ndim == 1:
         return T.sums.lse(st, a)
     if a.ndim == 2 and axis == 1:
-        return st.new_arr(Arr((a.shape[0],), lambda i: T.sums.lse(st, Arr((a.shape[1],), lambda j: a.at(i, j), "real",
-                                                                        prov=("row", a, i))), "real"))
+        return st.new_arr(T.sums.lse_rows(st, a))
     raise Unsupported("logaddexp.reduce")
 
 
@@ -1431,6 +1430,16 @@ def np_float64(I, st, args, kw, node):
     if args:
         return b_float(I, st, args, kw, node)
     return Opaque("builtin", name="float")
+
+
+@ext(("const", "numpy.inf"))
+def np_inf(I, st):
+    return Opaque("inf", sign=1)
+
+
+@ext(("const", "numpy.newaxis"))
+def np_newaxis_c(I, st):
+    return None
 
 
 @ext("numpy.newaxis")
